@@ -289,6 +289,29 @@ def build(case, d):
                     '\n -transformed-by ( run -rel-home cat.sh\n -stdin <<EOF\npre line\nEOF\n )'))
         fam.append(('concat-stdin', True, 'contents -rel-home prepended.txt : ( equals -stdout-from ' + EMIT + '\n ' +
                     TR.rstrip() + ' && ! is-empty )'))
+    # --- family: `identity` inside a chain around a transformer that DOES change the text (a -> A), in the places that
+    # take a short cut for identity transformations (output of a program, `run` transformer, nested sequences), on the
+    # actual and on the expected side
+    if '\r' not in t:
+        files['repl.txt'] = t.replace('a', 'A').encode('utf-8')
+        TRA = 'replace a A'
+        EXPA = 'equals -contents-of -rel-home repl.txt'
+        for chain in (TRA, '( identity | %s )' % TRA, '( %s | identity )' % TRA, '( ( identity | %s ) | identity )' % TRA,
+                      '( identity | identity | %s )' % TRA, '( identity | ( %s | identity ) )' % TRA):
+            fam.append(('identity-in-chain', True, subj + '-transformed-by ' + chain + ' ' + EXPA))
+            fam.append(('identity-in-chain', True, 'contents -rel-home repl.txt : equals -stdout-from ' + EMIT +
+                        '\n -transformed-by ' + chain))
+            fam.append(('identity-in-chain', True, subj + '-transformed-by ( run -rel-home cat.sh\n | ' + chain + ' ) ' +
+                        EXPA))
+            fam.append(('identity-in-chain', True, subj + '-transformed-by ' + chain + ' ( ' + EXPA + ' && ' + EXPA + ' )'))
+    # --- family: the text written on STDERR by a program (exit code relevant / ignored), as expected operand
+    if len(hexs) < 60000 and hexs and '\r' not in t:  # (CR: S6, the kinds of source legitimately disagree)
+        SE = '% ' + pr + ' - err=' + hexs
+        add('equals-stderr', True, '( equals -stderr-from ' + SE + '\n )')
+        add('equals-stderr', True, '( equals -stderr-from -ignore-exit-code ' + SE + '\n )')
+        add('equals-stderr', True, '( ( equals -stderr-from ' + SE + '\n ) && ( equals -stderr-from ' + SE + '\n ) )')
+        add('equals-stderr', True, '( equals -stderr-from ' + SE + '\n -transformed-by identity )')
+        add('equals-stderr', False, '( equals -stderr-from % ' + pr + ' - err=' + lhex + '\n )')
     # --- family: whole-string consumer
     has_a = 'a' in t
     variants('matches', has_a, 'matches a', simple=False)
